@@ -267,3 +267,182 @@ pub fn pathfs(args: &Args) {
     }
     out.flush();
 }
+
+// --------------------------------------------------------------------------------------------
+// C06: wire format
+
+fn bytes_of(v: &serde_json::Value) -> Vec<u8> {
+    v.as_array().map(|a| a.iter().map(|x| x.as_u64().unwrap() as u8).collect()).unwrap_or_default()
+}
+fn u128_of(v: &serde_json::Value) -> u128 {
+    let mut r: u128 = 0;
+    for b in bytes_of(v) {
+        r = (r << 8) | b as u128;
+    }
+    r
+}
+fn be_bytes(v: u128, n: usize) -> Vec<u64> {
+    (0..n).rev().map(|i| ((v >> (8 * i)) & 0xFF) as u64).collect()
+}
+
+fn oti_from(g: &serde_json::Value) -> Result<Oti, String> {
+    // {scheme, E, B, par, fti, inst, m, g, Z, N, Al}
+    let scheme = ji(g, "scheme");
+    let e = ju(g, "E") as u16;
+    let b = ju(g, "B") as u32;
+    let par = jopt_i(g, "par", 0) as u32;
+    let mut oti = match scheme {
+        0 => Oti::new_no_code(e, 1),
+        5 => Oti::new_reed_solomon_rs28(e, 1, 0).map_err(|e| format!("{:?}", e))?,
+        129 => Oti::new_reed_solomon_rs28_under_specified(e, 1, 0).map_err(|e| format!("{:?}", e))?,
+        6 => Oti::new_raptorq(e, 1, 0, jopt_i(g, "N", 1) as u16, jopt_i(g, "Al", 1) as u8).map_err(|e| format!("{:?}", e))?,
+        1 => Oti::new_raptor(e, 1, 0, jopt_i(g, "N", 1) as u8, jopt_i(g, "Al", 1) as u8).map_err(|e| format!("{:?}", e))?,
+        2 => verif::new_rs2m_oti(e, b, par, jopt_i(g, "m", 8) as u8, jopt_i(g, "g", 1) as u8),
+        _ => return Err("scheme".into()),
+    };
+    oti.maximum_source_block_length = b;
+    oti.max_number_of_parity_symbols = par;
+    oti.fec_instance_id = jopt_i(g, "inst", 0) as u16;
+    oti.inband_fti = jopt_b(g, "fti", true);
+    if scheme == 6 || scheme == 1 {
+        verif::set_source_blocks_length(&mut oti, jopt_i(g, "Z", 1) as u32);
+    }
+    Ok(oti)
+}
+
+fn rfc_json(bytes: &[u8], m: u32) -> serde_json::Value {
+    match crate::rfcdec::decode(bytes, m) {
+        Err(e) => json!({"ok": false, "err": e}),
+        Ok(d) => {
+            let fti = match &d.fti {
+                None => json!({"present": false}),
+                Some(f) => json!({"present": true, "L": be_bytes(f.transfer_length as u128, 6), "E": f.e, "B": be_bytes(f.b as u128, 4), "maxn": f.max_n,
+                                  "inst": f.instance_id, "m": f.m, "g": f.g, "Z": f.z, "N": f.n, "Al": f.al}),
+            };
+            let sct = match &d.ext_time {
+                Some(s) if s.sct_hi.is_some() => json!({"present": true, "hi": be_bytes(s.sct_hi.unwrap() as u128, 4), "lo": be_bytes(s.sct_lo.unwrap_or(0) as u128, 4), "has_lo": s.sct_lo.is_some()}),
+                _ => json!({"present": false}),
+            };
+            json!({"ok": true, "c": d.c, "s": d.s, "o": d.o, "h": d.h, "a": d.close_session, "b": d.close_object, "cp": d.cp,
+                   "cci": be_bytes(d.cci, 16), "tsi": be_bytes(d.tsi as u128, 8), "toi": be_bytes(d.toi, 16), "hdr": d.hdr_len,
+                   "fdt": d.ext_fdt.map(|(v, id)| json!([v, id])).unwrap_or(json!([])), "cenc": d.ext_cenc.map(|c| c as i64).unwrap_or(-1),
+                   "sct": sct, "fti": fti, "sbn": be_bytes(d.sbn as u128, 4), "esi": d.esi, "sbl": d.sbl.map(|x| x as i64).unwrap_or(-1),
+                   "poff": d.payload_off, "nunknown": d.unknown_exts.len()})
+        }
+    }
+}
+
+fn flute_json(bytes: &[u8], default_oti: Option<&Oti>) -> serde_json::Value {
+    let r = catch(|| -> serde_json::Value {
+        let pkt = match flute::core::alc::parse_alc_pkt(bytes) {
+            Ok(p) => p,
+            Err(e) => return json!({"ok": false, "err": format!("{:?}", e)}),
+        };
+        let fti = match (&pkt.oti, pkt.transfer_length) {
+            (Some(o), Some(l)) => {
+                let (kind, z, n, al, m, g) = verif::scheme_specific_fields(o);
+                json!({"present": true, "L": be_bytes(l as u128, 6), "E": o.encoding_symbol_length, "B": be_bytes(o.maximum_source_block_length as u128, 4),
+                       "par": o.max_number_of_parity_symbols, "inst": o.fec_instance_id, "kind": kind, "Z": z, "N": n, "Al": al, "m": m, "g": g,
+                       "scheme": o.fec_encoding_id as u8})
+            }
+            _ => json!({"present": false}),
+        };
+        let sct = match flute::core::alc::get_sender_current_time(&pkt) {
+            Ok(Some(t)) => match t.duration_since(std::time::UNIX_EPOCH) {
+                Ok(d) => json!({"present": true, "secs": be_bytes(d.as_secs() as u128, 4), "us": d.subsec_micros()}),
+                Err(_) => json!({"present": true, "secs": [], "us": -1}),
+            },
+            Ok(None) => json!({"present": false}),
+            Err(e) => json!({"present": false, "err": format!("{:?}", e)}),
+        };
+        // the payload id format only depends on the FEC Encoding ID, which FLUTE carries as the codepoint
+        let oti_for_pid = pkt.oti.clone().or(default_oti.cloned()).or_else(|| {
+            oti_from(&json!({"scheme": pkt.lct.cp, "E": 4, "B": 4, "Al": 4})).ok()
+        });
+        let pid = match &oti_for_pid {
+            Some(o) => match flute::core::alc::parse_payload_id(&pkt, o) {
+                Ok(p) => json!({"ok": true, "sbn": be_bytes(p.sbn as u128, 4), "esi": p.esi, "sbl": p.source_block_length.map(|x| x as i64).unwrap_or(-1)}),
+                Err(e) => json!({"ok": false, "err": format!("{:?}", e)}),
+            },
+            None => json!({"ok": false, "err": "no oti"}),
+        };
+        json!({"ok": true, "cci": be_bytes(pkt.lct.cci, 16), "tsi": be_bytes(pkt.lct.tsi as u128, 8), "toi": be_bytes(pkt.lct.toi, 16),
+               "cp": pkt.lct.cp, "a": pkt.lct.close_session, "b": pkt.lct.close_object, "hdr": pkt.lct.len,
+               "fdt": pkt.fdt_info.as_ref().map(|f| json!([f.version, f.fdt_instance_id])).unwrap_or(json!([])),
+               "cenc": pkt.cenc.map(|c| c as u8 as i64).unwrap_or(-1), "fti": fti, "sct": sct, "pid": pid,
+               "poff": pkt.data_payload_offset})
+    });
+    match r {
+        Ok(v) => v,
+        Err(m) => json!({"ok": false, "panic": m}),
+    }
+}
+
+/// flute builds the packets described by the generator (direction i)
+pub fn wire_enc(args: &Args) {
+    let input = std::fs::read_to_string(args.str("in", "-")).expect("input");
+    let mut out = Out::new(args.get("out"));
+    for line in input.lines() {
+        if line.trim().is_empty() { continue; }
+        let g: serde_json::Value = serde_json::from_str(line).expect("json");
+        let oti = match oti_from(jget(&g, "oti")) {
+            Ok(o) => o,
+            Err(m) => { out.emit(&json!({"ev":"enc","g":g,"skip":m})); continue; }
+        };
+        let toi = u128_of(jget(&g, "toi"));
+        let fdt = g.get("fdt").and_then(|f| f.as_array()).filter(|a| a.len() == 2).map(|a| (a[0].as_u64().unwrap() as u8, a[1].as_u64().unwrap() as u32));
+        let sct = g.get("sct").filter(|s| s.is_object() && s.get("secs").is_some());
+        let now = match sct {
+            Some(s) => std::time::UNIX_EPOCH + std::time::Duration::new(u128_of(jget(s, "secs")) as u64, ju(s, "us") as u32 * 1000),
+            None => base_time(),
+        };
+        let f = verif::PktFields {
+            cci: u128_of(jget(&g, "cci")), tsi: u128_of(jget(&g, "tsi")) as u64, toi,
+            fdt_id: fdt.map(|x| x.1), sbn: u128_of(jget(&g, "sbn")) as u32, esi: ju(&g, "esi") as u32,
+            source_block_length: jopt_i(&g, "sbl", 0) as u32, cenc: crate::catalog::cenc_of(jopt_i(&g, "cenc", 0)),
+            inband_cenc: jopt_b(&g, "icenc", false), close_object: jb(&g, "b"), sender_current_time: sct.is_some(),
+            transfer_length: u128_of(jget(&g, "L")) as u64, payload: vec![0x5A; ju(&g, "paylen") as usize],
+        };
+        let profile = if fdt.map(|x| x.0) == Some(1) { flute::sender::Profile::RFC3926 } else { flute::sender::Profile::RFC6726 };
+        let m = jopt_i(jget(&g, "oti"), "m", 8) as u32;
+        match catch(|| verif::build_alc_pkt(&oti, &f, profile, now)) {
+            Ok(bytes) => {
+                let fl = flute_json(&bytes, Some(&oti));
+                out.emit(&json!({"ev":"enc","g":g,"bytes":bytes,"flute":fl,"rfc":rfc_json(&bytes, m)}));
+            }
+            Err(msg) => out.emit(&json!({"ev":"enc","g":g,"panic":msg})),
+        }
+    }
+    out.flush();
+}
+
+/// flute parses the packets built by the specification (direction ii)
+pub fn wire_dec(args: &Args) {
+    let input = std::fs::read_to_string(args.str("in", "-")).expect("input");
+    let mut out = Out::new(args.get("out"));
+    for line in input.lines() {
+        if line.trim().is_empty() { continue; }
+        let g: serde_json::Value = serde_json::from_str(line).expect("json");
+        let bytes = bytes_of(jget(&g, "bytes"));
+        let m = jopt_i(&g, "m", 8) as u32;
+        // OTI needed to interpret the payload id when the packet has no EXT_FTI
+        let d = g.get("oti").and_then(|o| oti_from(o).ok());
+        out.emit(&json!({"ev":"dec","id":g.get("id").cloned().unwrap_or(json!(0)),"m":m,"bytes":bytes,"flute":flute_json(&bytes, d.as_ref()),"rfc":rfc_json(&bytes, m)}));
+    }
+    out.flush();
+}
+
+/// every packet of real Sender runs: bytes with what flute and rfcdec decode (direction iii)
+pub fn wire_sender(args: &Args) {
+    let input = std::fs::read_to_string(args.str("in", "-")).expect("input");
+    let mut out = Out::new(args.get("out"));
+    for (i, line) in input.lines().enumerate() {
+        if line.trim().is_empty() { continue; }
+        let spec: serde_json::Value = serde_json::from_str(line).expect("json");
+        let s = crate::recv_drv::build_session(i, &spec);
+        for (t, bytes, _) in &s.pkts {
+            out.emit(&json!({"ev":"dec","id":i,"m":8,"t":t,"bytes":bytes,"flute":flute_json(bytes, None),"rfc":rfc_json(bytes, 8)}));
+        }
+    }
+    out.flush();
+}
